@@ -6,6 +6,7 @@ package state
 import (
 	"errors"
 	"fmt"
+	"sort"
 	"strings"
 
 	memdb "github.com/hashicorp/go-memdb"
@@ -693,7 +694,15 @@ func getExistingJWTProvidersByName(tx ReadTxn, kn configentry.KindName) (map[str
 func validateJWTProvider(existingProviderNames map[string]*structs.JWTProviderConfigEntry, referencedProviderNames map[string]struct{}) error {
 	var result error
 
-	for referencedProvider := range referencedProviderNames {
+	// Visit the names in a fixed order: the resulting error text is part of the
+	// reply to a replicated command and must not depend on map iteration order.
+	names := make([]string, 0, len(referencedProviderNames))
+	for name := range referencedProviderNames {
+		names = append(names, name)
+	}
+	sort.Strings(names)
+
+	for _, referencedProvider := range names {
 		_, found := existingProviderNames[referencedProvider]
 		if !found {
 			result = multierror.Append(result, fmt.Errorf("Referenced JWT Provider does not exist. Provider Name: %s", referencedProvider)).ErrorOrNil()
@@ -1231,7 +1240,16 @@ func validateProposedConfigEntryInServiceGraph(
 		svcTopNodeType              = make(map[structs.ServiceID]string)
 		exportedServicesByPartition = make(map[string]map[structs.ServiceName]struct{})
 	)
+	// Check the chains in a fixed order: the first failure is returned to the
+	// caller of a replicated command and must not depend on map iteration order.
+	chainIDs := make([]structs.ServiceID, 0, len(checkChains))
 	for serviceID := range checkChains {
+		chainIDs = append(chainIDs, serviceID)
+	}
+	sort.Slice(chainIDs, func(i, j int) bool {
+		return chainIDs[i].String() < chainIDs[j].String()
+	})
+	for _, serviceID := range chainIDs {
 		chain, err := testCompileDiscoveryChain(tx, serviceID.ID, overrides, &serviceID.EnterpriseMeta)
 		if err != nil {
 			return err
